@@ -160,7 +160,7 @@ try:
         mp.join_dofs(p1, [i1], p2, [i2])
         parent[find((p1, i1))] = find((p2, i2))
     mp.finalize()
-    G = [mp.patch_to_global_idx(p) if len(mp.shared_per_patch[p]) else np.arange(mp.M_ofs[p], mp.M_ofs[p] + n) for p in range(P)]
+    G = [mp.patch_to_global_idx(p) for p in range(P)]
 except Exception as e:
     err = '%s: %s' % (type(e).__name__, e)
 bad = []
@@ -177,14 +177,126 @@ else:
         bad.append('numbering not a gap-free bijection onto the %d classes: numdofs=%d, indices used %s' % (ncls, mp.numdofs, sorted(set(glob.values()))))
     if not bad:
         for p in range(P):
-            if len(mp.shared_per_patch[p]) == 0: continue
             X = mp.patch_to_global(p).toarray()
+            XG = mp.patch_to_global(p, j_global=True).toarray()
+            if XG.shape != (mp.numdofs, n * P) or not np.array_equal(XG[:, n * p:n * (p + 1)], X) or XG.sum() != n:
+                bad.append('patch_to_global(%d, j_global=True) is not the matrix of the patch placed in its own column block' % p)
             # X^T X = I unless the joins glue the patch to itself; in general (X^T X)[a,b] = [a ~ b]
             ref = np.array([[1.0 if find((p, a)) == find((p, b)) else 0.0 for b in range(n)] for a in range(n)])
             if not (np.isin(X, (0, 1)).all() and (X.sum(axis=0) == 1).all() and np.allclose(X.T @ X, ref)):
                 bad.append('patch_to_global(%d) is not a 0/1 matrix with one entry per local dof and X^T X = [same class]' % p)
+if not bad:
+    # boundary data through the multipatch routine, triples interleaved (a patch comes back after another one)
+    try:
+        seq = [(0, (0,), None), (1, (n - 1,), None), (0, (n - 1, 0), None)] + ([(P - 1, (0,), None), (1, (0,), None)] if P > 2 else [])
+        mp.patches = [(('kvs', p), ('geo', p)) for p in range(P)]
+        assemble.compute_dirichlet_bc = lambda kvs, geo, bdspec, g: (np.array(bdspec, dtype=int), np.array([100.0 * kvs[1] + l for l in bdspec]))
+        idx, vals = mp.compute_dirichlet_bcs(seq)
+        exp = {}
+        for (pp, loc, _) in seq:
+            for l in loc: exp.setdefault(int(G[pp][l]), set()).add(100.0 * pp + l)
+        if sorted(int(i) for i in idx) != sorted(exp) or any(float(v) not in exp[int(i)] for i, v in zip(idx, vals)):
+            bad.append('Multipatch.compute_dirichlet_bcs(%s): indices %s values %s, expected %s' % ([(a, b) for a, b, _ in seq], list(map(int, idx)), list(map(float, vals)), {k: sorted(v) for k, v in exp.items()}))
+    except Exception as e:
+        bad.append('exception in compute_dirichlet_bcs %s: %s' % (type(e).__name__, e))
 print(json.dumps({'reproduced': bool(bad), 'bad': bad[:5]}))
 '''
+
+
+# ------------------------------------------------------------------------------------------------ numbering after finalize
+def _ix(idx):
+    if isinstance(idx, np.ndarray) and idx.dtype == object:
+        return np.array([int(v) if not isinstance(v, Sym) else v.__index__() for v in idx.ravel()], dtype=int).reshape(idx.shape)
+    if isinstance(idx, tuple): return tuple(_ix(i) for i in idx)
+    if isinstance(idx, Sym): return idx.__index__()
+    return idx
+
+
+class IdxArr(np.ndarray):
+    """object array whose index arguments may be object arrays of (concrete or solver) integers"""
+    def __getitem__(self, idx): return np.ndarray.__getitem__(self, _ix(idx))
+    def __setitem__(self, idx, v): np.ndarray.__setitem__(self, _ix(idx), v)
+
+
+class NumNP(SymNP):
+    def arange(self, *a, **k):
+        return np.arange(*[int(x) if not isinstance(x, Sym) else x.__index__() for x in a]).astype(object).view(IdxArr)
+    def array(self, x, dtype=None, **k):
+        r = SymNP.array(self, x, dtype, **k)
+        return r.view(IdxArr) if r.dtype == object else r
+    def setdiff1d(self, a, b, assume_unique=False):
+        bb = {int(v) for v in np.asarray(b).ravel()}
+        return np.array([int(v) for v in np.asarray(a).ravel() if int(v) not in bb], dtype=int)
+
+
+def load_numbering(enc=None, transform=None):
+    ns = {'np': NumNP(), 'scipy': _NS(sparse=sparse_facade()), 'bspline': None, 'boundary_dofs': None}
+    srcload.load_defs('pyiga/assemble.py', ['Multipatch'], ns, encoded=enc, transform=transform)
+    return ns
+
+
+def numbering_harness(ns, P, n, K):
+    """finalize, then the numbering queries, on a symbolic invariant state (which dofs are shared is decided by forking, the class ids
+    stay symbolic): patch_to_global_idx separates exactly the classes, patch_to_global (both column layouts) is the 0/1 matrix of that
+    numbering, and Multipatch.compute_dirichlet_bcs maps the local boundary dofs of every (patch, face) triple -- in any order of the
+    triples, a patch may come back after another one -- through the numbering of ITS patch."""
+    MP = ns['Multipatch']
+    dofs, spp0, L0, inv = pre_state(P, n, K)
+    cap = K + 1
+
+    def run(c):
+        for q in inv + class_invariant(dofs, spp0, L0, K, False): c.assume(q)
+        mp = MP.__new__(MP)
+        mp.N = [n] * P
+        mp.N_ofs = np.concatenate(([0], np.cumsum(mp.N)))
+        mp.patches = [(('kvs', p), ('geo', p)) for p in range(P)]
+        mp.shared_per_patch = [SymDict({i: spp0[p][i] for i in range(n)}) for p in range(P)]
+        mem = [{(p, i): (spp0[p][i] == s) for (p, i) in dofs} for s in range(cap)]
+        mp.shared_dofs = SymSetList(L0, mem, cap, dofs)
+        mp.finalize()
+        nd = mp.numdofs
+        G = [mp.patch_to_global_idx(p) for p in range(P)]
+        props = []
+        for (p, i) in dofs: props.append(z3.And(lift(G[p][i]) >= 0, lift(G[p][i]) < lift(nd)))
+        for y, zz in itertools.combinations(dofs, 2):
+            props.append((lift(G[y[0]][y[1]]) == lift(G[zz[0]][zz[1]])) == same(spp0, y, zz))
+        c.check(z3.And(*props), 'patch_to_global_idx: indices in range, equal exactly for joined dofs')
+        ndv = Sym(lift(nd)).__index__() if isinstance(nd, Sym) else int(nd)
+        for jg in (False, True):
+            for p in range(P):
+                X = mp.patch_to_global(p, j_global=jg).toarray()
+                ncol = n * P if jg else n
+                if X.shape != (ndv, ncol):
+                    c.check(z3.BoolVal(False), 'patch_to_global(p, j_global=%s): shape' % jg); continue
+                ok = []
+                for r in range(ndv):
+                    for col in range(ncol):
+                        i = col - (n * p if jg else 0)
+                        want = z3.If(lift(G[p][i]) == r, z3.RealVal(1), z3.RealVal(0)) if 0 <= i < n else z3.RealVal(0)
+                        ok.append(sx._toreal(lift(X[r, col])) == want)
+                c.check(z3.And(*ok), 'patch_to_global(p, j_global=%s): entry (g, column of local dof i) = [g is the global index of i], nothing else' % jg)
+        # boundary data: the per-face routine is a stub returning fixed local dofs with symbolic values; combine_bcs is the identity
+        g = MP.compute_dirichlet_bcs.__globals__
+        calls = []
+        def bc_stub(kvs, geo, bdspec, gfun):
+            loc = np.array(bdspec, dtype=int)
+            vals = np.array([Sym(z3.Real('v_%d_%d' % (len(calls), k))) for k in range(len(loc))] + [None], dtype=object)[:-1]
+            calls.append((kvs[1], loc, vals)); return (loc, vals)
+        old = (g.get('compute_dirichlet_bc'), g.get('combine_bcs'))
+        g['compute_dirichlet_bc'] = bc_stub; g['combine_bcs'] = lambda bcs: list(bcs)
+        try:
+            seq = [(0, (0,), None), (1, (n - 1,), None), (0, (n - 1, 0), None)] + ([(P - 1, (0,), None), (1, (0,), None)] if P > 2 else [])
+            out = mp.compute_dirichlet_bcs(seq)
+        finally:
+            g['compute_dirichlet_bc'], g['combine_bcs'] = old
+        ok = [z3.BoolVal(len(out) == len(seq))]
+        for (pp, loc, vals), (gi, gv) in zip(calls, out):
+            for k, l in enumerate(loc):
+                ok.append(lift(np.asarray(gi, dtype=object).ravel()[k]) == lift(G[pp][int(l)]))
+                ok.append(lift(np.asarray(gv, dtype=object).ravel()[k]) == lift(vals[k]))
+        c.check(z3.And(*ok), 'Multipatch.compute_dirichlet_bcs: every (patch, face) triple is mapped through the numbering of its own patch, values kept')
+        c.witness('numbering')
+    return run, (dofs, spp0, L0)
 
 
 def history_for(model, dofs, spp0, L0, K, P, n):
@@ -359,7 +471,7 @@ def main():
                         'classes emptied by merging are compacted by finalize); class ids < len(shared_dofs)',
                         'single-pair joins: join_dofs over index arrays is the sequence of its pairs (the loop is executed for one pair)']
     run.out_of_scope += ['detect_interfaces (floating-point geometry comparison)', 'assemble_system vs undivided domain (numeric assembly)',
-                         'patch_to_global_idx numpy indexing (exercised in replay only)', 'join_boundaries flips: see C10 slice_indices/boundary_dofs']
+                         'join_boundaries flips: see C10 slice_indices/boundary_dofs']
     cfgs = [(3, 2, 2)] + ([(4, 2, 2), (3, 2, 3), (3, 3, 2)] if thorough else [])
     run.bounds = {'patches': '3 (quick) / 4', 'local dofs per patch': '2 (3 thorough)', 'pre-existing classes': '<= 2 (3 thorough)', 'join': 'any ordered patch pair, any dof pair'}
     for (P, n, K) in cfgs:
@@ -400,6 +512,20 @@ def main():
                     # empty classes in the pre-state can only arise through a merging join_dofs; not reachable with this history
                     run.inconclusive_msg('finalize counterexample (%s) needs a pre-state with emptied classes that the generated history does not produce' % cex['name'])
             break
+    if run.want('numbering'):
+        enc3 = srcload.Encoded(); nns = load_numbering(enc3); run.add_encoded(enc3)
+        for (P, n, K) in [(2, 2, 1), (3, 2, 2)] + ([(3, 3, 2)] if thorough else []):
+            h, (dofs, spp0, L0) = numbering_harness(nns, P, n, K)
+            st = sx.explore(h, timeout_ms=60000, max_paths=20000)
+            bound = {'P': P, 'n': n, 'K': K}
+            run.absorb(st, 'numbering', bound=bound, sample={'obligation': 'numbering queries after finalize', **bound})
+            for cex in st.cex:
+                hist = history_for(cex['model'], dofs, spp0, L0, K, P, n)
+                if hist is None:
+                    run.inconclusive_msg('numbering counterexample from an unreachable pre-state (%s)' % cex['name']); continue
+                w = {'P': P, 'n': n, 'history': hist}
+                r = realbuild.run_real(REPLAY, w, only=[])
+                run.report('numbering:%s' % cex['name'].split(':')[0].split('(')[0], 'after joins %s on %d patches x %d dofs: %s; real: %s' % (hist, P, n, cex['name'], r['bad']), w, r['reproduced'])
     if not run.args.no_canaries:
         def canary(name, pat, rep):
             if pat not in src:
